@@ -765,8 +765,19 @@ pub fn run<P: Payload>(prog: &Value, strat: Strat) -> RunResult {
                     sched::stack_region(pi, &marker as *const u8 as usize, 1 << 20);
                     sched::thread_start(pi);
                     let mut pr = Proc::<P> { pi, hs: hs.0, futs: vec![], fut_h: vec![], oid: 0, quarantine: vec![], drains: 0 };
-                    for op in &ops {
-                        pr.exec(op);
+                    // a panic escaping an API call's own catch (harness or corrupted state) must not lose the baton
+                    let escaped = catch_unwind(AssertUnwindSafe(|| {
+                        for op in &ops {
+                            pr.exec(op);
+                        }
+                    }))
+                    .is_err();
+                    if escaped {
+                        sched::record(sched::H_POINT, 0, 666, 0, None);
+                        std::mem::forget(std::mem::take(&mut pr.hs));
+                        std::mem::forget(std::mem::take(&mut pr.futs));
+                        sched::thread_finish();
+                        return SendBox(vec![]);
                     }
                     // epilogue: give everything back
                     for fi in 0..pr.futs.len() {
